@@ -1077,6 +1077,26 @@ func genC03(c *Ctx) {
 			}
 		}
 	}
+	// edits on events whose content is already exactly what redaction keeps: Redact() after
+	// SetUnsigned / SetUnsignedField / Sign still has the top-level members to remove
+	for _, ver := range vers {
+		for _, tc := range [][3]string{{"m.room.member", "@alice:example.org", `{"membership":"leave"}`}, {"m.room.message", "", `{}`},
+			{"m.room.join_rules", "", `{"join_rule":"public"}`}} {
+			a := g.proto(ver)
+			a[3], a[11] = B(tc[0]), B(tc[2])
+			if tc[0] == "m.room.message" {
+				a[4], a[5] = B("0"), B("")
+			} else {
+				a[4], a[5] = B("1"), B(tc[1])
+			}
+			if verImplOf(ver).DomainlessRoomIDs() && len(a[2]) == 0 {
+				a[2] = B("!" + g.randOf(b64url, 43))
+			}
+			a = append(a, B(`{"age":77,"prev_content":{"membership":"join"}}`), B("transaction_id"), B(`"txn"`), B("second.example.org"), B("ed25519:2"))
+			c.Run("C03.edits", a, "C03.edits", "C03.prop.edits", "edits minimal content "+c03Desc(a))
+			c.Count("edits/minimal-content")
+		}
+	}
 	// 4. variants: one field changed (IDs must differ) or only unsigned / signatures / key ID
 	// changed (IDs must be equal)
 	n = c.Scale(22, 300)
